@@ -20,7 +20,7 @@ func init() {
 
 func runC01(c *core.Ctx) {
 	runFixtures(c, "valid")
-	c.Explain("Differential equivalence with package os over histories is not decidable statically. Decided, exhaustively over a finite space: (R01.1) the flag decision table of the key-value FS's OpenFile — for all 48 flag values (3 access modes x O_APPEND/O_CREATE/O_EXCL/O_TRUNC, constants of the loaded target) x {target missing with parent a directory / parent missing / parent a regular file; target a regular file; target a directory} = 240 cells the single feasible path through the function is followed by evaluating its flag tests as constants and its look-up tests from the situation, and the outcome (handle kind by control dependence of the wrapper constructed, create reached, truncate reached, or the sentinel of the returned error) must equal the reference table of os.OpenFile; a test the evaluator cannot classify makes the cell undecided (= failure); (R01.2) permission masking: every value that reaches the mode of a newly built record from a perm/mode parameter of Mkdir, MkdirAll, OpenFile crosses '& const' with const within ModePerm, Chmod's stored mode crosses '& const' within ModePerm|Setuid|Setgid|Sticky, and directory records are or-ed with ModeDir — invisible to the suite, which compares modes under a zero mask. (R01.3) every strings.HasPrefix relating two names in package keyvalue (Rename's 'moved into itself' guard) uses a prefix ending in '/' — os compares path elements, so Rename(\"lib\", \"lib64/lib\") must not be refused; (R01.4) every nil return of the key-value MkdirAll lies on a path that passed the success edge of the ancestor classifier (which answers a regular file anywhere in the chain, the leaf included, with ErrNotDir) or an IsDir()-true test of a look-up of the path — os.MkdirAll succeeds only if the path is a directory afterwards; (R01.5) Rename stores the record it loaded under the new name and constructs no record of its own — a fresh record loses what the old one carried (the modification time set by Chtimes, which os.Rename keeps); (R01.6) on every path on which OpenFile returns a handle, the flag parameter was stored into the handle's record (field store or constructor argument) — a handle that loses O_APPEND writes at its offset instead of the end; R01.1 also evaluates, one level deep, the flag tests inside the handle's Truncate that OpenFile calls for O_TRUNC. Existence/kind preconditions of the other mutations are C03's. (R01.7/R01.8) the create-site analyses of R03.1/R03.5 under this property; (R01.9) the in-memory listing compares child names with constants only; (R01.10) no store to the modification-time field is reachable from Chmod, Stat, Rename, reads, seeks, ReadDir or Close; (R01.11) the by-name look-up classifies the ancestors of a missing name (known finding). (R01.12) times are compared with IsZero/Equal, never with ==. (R01.13) Rename stores a directory under the new name only on the edge where that name was found absent; (R01.14) no by-name method returns a constant nil before its look-up. NOT claimed: results, data and trees equal to os over histories; Rename/Remove/RemoveAll semantics beyond C03; modification times.")
+	c.Explain("Differential equivalence with package os over histories is not decidable statically. Decided, exhaustively over a finite space: (R01.1) the flag decision table of the key-value FS's OpenFile — for all 48 flag values (3 access modes x O_APPEND/O_CREATE/O_EXCL/O_TRUNC, constants of the loaded target) x {target missing with parent a directory / parent missing / parent a regular file; target a regular file; target a directory} = 240 cells the single feasible path through the function is followed by evaluating its flag tests as constants and its look-up tests from the situation, and the outcome (handle kind by control dependence of the wrapper constructed, create reached, truncate reached, or the sentinel of the returned error) must equal the reference table of os.OpenFile; a test the evaluator cannot classify makes the cell undecided (= failure); (R01.2) permission masking: every value that reaches the mode of a newly built record from a perm/mode parameter of Mkdir, MkdirAll, OpenFile crosses '& const' with const within ModePerm, Chmod's stored mode crosses '& const' within ModePerm|Setuid|Setgid|Sticky, and directory records are or-ed with ModeDir — invisible to the suite, which compares modes under a zero mask. (R01.3) every strings.HasPrefix relating two names in package keyvalue (Rename's 'moved into itself' guard) uses a prefix ending in '/' — os compares path elements, so Rename(\"lib\", \"lib64/lib\") must not be refused; (R01.4) every nil return of the key-value MkdirAll lies on a path that passed the success edge of the ancestor classifier (which answers a regular file anywhere in the chain, the leaf included, with ErrNotDir) or an IsDir()-true test of a look-up of the path — os.MkdirAll succeeds only if the path is a directory afterwards; (R01.5) Rename stores the record it loaded under the new name and constructs no record of its own — a fresh record loses what the old one carried (the modification time set by Chtimes, which os.Rename keeps); (R01.6) on every path on which OpenFile returns a handle, the flag parameter was stored into the handle's record (field store or constructor argument) — a handle that loses O_APPEND writes at its offset instead of the end; R01.1 also evaluates, one level deep, the flag tests inside the handle's Truncate that OpenFile calls for O_TRUNC. Existence/kind preconditions of the other mutations are C03's. (R01.7/R01.8) the create-site analyses of R03.1/R03.5 under this property; (R01.9) the in-memory listing compares child names with constants only; (R01.10) no store to the modification-time field is reachable from Chmod, Stat, Rename, reads, seeks, ReadDir or Close; (R01.11) the by-name look-up classifies the ancestors of a missing name (known finding). (R01.12) times are compared with IsZero/Equal, never with ==. (R01.13) Rename stores a directory under the new name only on the edge where that name was found absent; (R01.14) no by-name method returns a constant nil before its look-up. (R01.15) the whole-file write helper (the fallback mem and keyvalue use) reaches no Chmod/Chtimes/Chown: os.WriteFile uses perm only when it creates the file. NOT claimed: results, data and trees equal to os over histories; Rename/Remove/RemoveAll semantics beyond C03; modification times.")
 	c.Assume("reference table of os.OpenFile semantics frozen in the checker (documented in DESIGN.md §3 C01)")
 	c.RuleDoc("R01.1", "OpenFile flag decision table, exhaustive over 240 cells")
 	c.RuleDoc("R01.2", "permission masking on create and chmod")
@@ -31,6 +31,7 @@ func runC01(c *core.Ctx) {
 	c.RuleDoc("R01.8", "a record is stored under a path only where that path was found absent or not a directory (os: rename of a file onto a directory fails) — the analysis of R03.5")
 	c.RuleDoc("R01.9", "the in-memory listing compares child names with constants only")
 	c.RuleDoc("R01.13", "Rename stores a directory under the new name only where the new name is absent")
+	c.RuleDoc("R01.15", "the whole-file write helper changes no attribute of the file it writes")
 	c.RuleDoc("R01.14", "a by-name method returns a constant nil only after the name was looked up")
 	c.RuleDoc("R01.12", "times are compared with IsZero/Equal, never with == (a zero time in another zone means 'leave unchanged')")
 	c.RuleDoc("R01.11", "a name that leads through a regular file fails as in os (ENOTDIR), so RemoveAll of it fails too (= R05.7)")
@@ -59,6 +60,7 @@ func runC01(c *core.Ctx) {
 		r01TimesComparedByValue(c, p)
 		r01DirOntoAbsentOnly(c, p, sh)
 		r01SuccessAfterLookup(c, p, sh)
+		r01WriteKeepsAttributes(c, p)
 		if p.Target == load.Linux {
 			r05NotDirThroughFile(c, p, "R01.11")
 		}
@@ -76,6 +78,7 @@ func runC01(c *core.Ctx) {
 	c.Floor("R01.12", 1)
 	c.Floor("R01.13", 1)
 	c.Floor("R01.14", 3)
+	c.Floor("R01.15", 1)
 }
 
 type openSituation struct {
@@ -337,18 +340,38 @@ func r01Eval(sh *kvShape, fn *ssa.Function, nameP, flagP *ssa.Parameter, flag in
 					return missing && sent == "ErrNotExist", true
 				}
 			}
-			if cl, ok := cond.(*ssa.Call); ok && isIsDirCall(cl) {
-				var recv ssa.Value
-				if cl.Call.IsInvoke() {
-					recv = cl.Call.Value
-				} else if len(cl.Call.Args) > 0 {
-					recv = cl.Call.Args[0]
+			if cl, ok := cond.(*ssa.Call); ok && (isIsDirCall(cl) || isKindCall(cl, "IsRegular")) {
+				// x.IsDir() / x.Mode().IsRegular() ...: whose look-up produced x
+				recvOf := func(cl *ssa.Call) ssa.Value {
+					if cl.Call.IsInvoke() {
+						return cl.Call.Value
+					} else if len(cl.Call.Args) > 0 {
+						return cl.Call.Args[0]
+					}
+					return nil
 				}
-				switch assoc(s.Resolve(recv)) {
+				who := ""
+				for v, i := recvOf(cl), 0; v != nil && i < 3 && who == ""; i++ {
+					v = s.Resolve(v)
+					who = assoc(v)
+					inner, isCall := v.(*ssa.Call)
+					if !isCall {
+						break
+					}
+					v = recvOf(inner)
+				}
+				want := "dir"
+				if !isIsDirCall(cl) {
+					want = "file"
+				}
+				switch who {
 				case "target":
-					return sit.target == "dir", true
+					if sit.target == "missing" && s.Counts["created"] == 1 {
+						return want == "file", true // the record this call has just created is a regular file
+					}
+					return sit.target == want, true
 				case "parent":
-					return sit.parent == "dir", true
+					return sit.parent == want, true
 				}
 			}
 			return false, false
@@ -1387,4 +1410,44 @@ func dependsOnArgs(v ssa.Value, root ssa.Value, d int) bool {
 		}
 	}
 	return false
+}
+
+// r01WriteKeepsAttributes (R01.15): hackpadfs.WriteFullFile's fallback (open with O_CREATE|O_TRUNC, write, close) —
+// the implementation mem and keyvalue get — reaches no operation that sets attributes (Chmod, Chtimes, Chown and their
+// *File forms), in itself or in the module functions it calls (two levels). os.WriteFile applies perm only when it
+// creates the file: re-writing an existing 0600 file with perm 0644 leaves it 0600.
+func r01WriteKeepsAttributes(c *core.Ctx, p *load.Program) {
+	fn := p.Func("", "WriteFullFile")
+	if fn == nil {
+		c.Hard("anchor: hackpadfs.WriteFullFile")
+		return
+	}
+	attr := map[string]bool{"Chmod": true, "ChmodFile": true, "Chtimes": true, "ChtimesFile": true, "Chown": true, "ChownFile": true}
+	bad := ""
+	seen := map[*ssa.Function]bool{}
+	var visit func(f *ssa.Function, d int)
+	visit = func(f *ssa.Function, d int) {
+		if f == nil || seen[f] || f.Blocks == nil || d > 2 {
+			return
+		}
+		seen[f] = true
+		ssax.InstrsDeep(f, func(_ *ssa.Function, ins ssa.Instruction) {
+			ci, ok := ins.(ssa.CallInstruction)
+			if !ok {
+				return
+			}
+			if m := ssax.InvokeMethod(ci); m != nil && attr[m.Name()] && bad == "" {
+				bad = m.Name() + " at " + p.Pos(ins.Pos())
+			}
+			if callee := ssax.StaticCallee(ci); callee != nil && p.InModule(callee) {
+				if attr[callee.Name()] && bad == "" {
+					bad = callee.Name() + " at " + p.Pos(ins.Pos())
+				}
+				visit(callee, d+1)
+			}
+		})
+	}
+	visit(fn, 0)
+	c.Check(bad == "", "R01.15", "hackpadfs.WriteFullFile|sets-no-attributes", p.Pos(fn.Pos()), "no Chmod/Chtimes/Chown reachable from the whole-file write",
+		fmt.Sprintf("hackpadfs.WriteFullFile reaches %s: writing an existing file replaces its permission bits (or times) with the call's arguments, where os.WriteFile uses perm only for a file it creates — a 0600 file re-written with perm 0644 must stay 0600", bad))
 }
